@@ -67,11 +67,96 @@ let errstr_cases out =
     | _ -> ()
   done with End_of_file -> ()
 
+
+(* ---------- lexer (C13, C12, C03, C10, C14) ---------- *)
+let class_name = function
+  | E_illegal_char -> "illegal_char" | E_number_ident -> "number_ident" | E_empty_ident -> "empty_ident"
+  | E_escape_eof -> "escape_eof" | E_hex2 -> "hex2" | E_parse_uint -> "parse_uint" | E_u_in_bytes -> "u_in_bytes"
+  | E_u_digits -> "u_digits" | E_code_point -> "code_point" | E_octal3 -> "octal3" | E_bad_escape -> "bad_escape"
+  | E_newline -> "newline" | E_unclosed -> "unclosed" | E_unclosed_comment -> "unclosed_comment"
+
+let tok_string b (t : token) lpos dot proj =
+  let comments () =
+    List.iter (fun c -> Printf.bprintf b ",%s,%s,%d,%d" (hexb c.c_space) (hexb c.c_raw) (int_of_nat c.c_pos) (int_of_nat c.c_end))
+      t.t_comments in
+  match proj with
+  | "c13" ->
+    Printf.bprintf b "%d,%d,%d,%s,%s,%d" (if t.t_kind = bytes_of_string "<eof>" then 1 else 0) (int_of_nat t.t_pos) (int_of_nat t.t_end)
+      (hexb t.t_raw) (hexb t.t_space) (List.length t.t_comments);
+    comments ()
+  | "c14" ->
+    Printf.bprintf b "%s,%d,%d,%s,%d" (hexb t.t_kind) (int_of_nat t.t_pos) (int_of_nat t.t_end) (hexb t.t_str) (int_of_nat t.t_base)
+  | _ ->
+    Printf.bprintf b "%s,%d,%d,%s,%s,%d,%s,%d,%d,%d" (hexb t.t_kind) (int_of_nat t.t_pos) (int_of_nat t.t_end)
+      (hexb t.t_raw) (hexb t.t_str) (int_of_nat t.t_base) (hexb t.t_space) lpos (if dot then 1 else 0)
+      (List.length t.t_comments);
+    comments ()
+
+let k_eof = bytes_of_string "<eof>"
+
+let lex_line (s : string) (np : bool) (proj : string) : string =
+  let b = Buffer.create 256 in
+  let limit = 2 * String.length s + 4 in
+  let fail what =
+    match proj with
+    | "c13" -> "-"
+    | "c14" -> if what = "CRASH" || what = "LOOP" then what else "ERR"
+    | "c03" -> what
+    | _ -> Buffer.contents b ^ "| " ^ what in
+  let rec go l n =
+    if n >= limit then fail "LOOP"
+    else match next_token np l with
+      | LCrash -> fail "CRASH"
+      | LErr e ->
+        if proj = "c03" then Printf.sprintf "ERR %d %d" (int_of_nat e.e_pos) (int_of_nat e.e_end)
+        else fail (Printf.sprintf "ERR %d %d %s" (int_of_nat e.e_pos) (int_of_nat e.e_end) (class_name e.e_class))
+      | LOk l' ->
+        if proj <> "c03" then begin
+          tok_string b l'.l_tok (int_of_nat l'.l_pos) l'.l_dot proj;
+          Buffer.add_char b ' ' end;
+        if l'.l_tok.t_kind = k_eof then (if proj = "c03" then "OK" else (Buffer.add_string b "| OK"; Buffer.contents b))
+        else go l' (n + 1)
+  in
+  go (init_lexer (bytes_of_string s)) 0
+
+let lex_cases out np proj =
+  try while true do
+    let line = String.trim (input_line stdin) in
+    let s = string_of_hex line in
+    Printf.fprintf out "%s => %s\n" (hex_of_string s) (lex_line s np proj)
+  done with End_of_file -> ()
+
+let hash_mask = (1 lsl 40) - 1
+let hash_str h s =
+  let h = ref h in
+  String.iter (fun c -> h := (!h * 1000003 + Char.code c) land hash_mask) s; !h
+
+let lex_exh out alpha maxlen np prefix0 first proj verbose =
+  let alpha = List.map string_of_hex (String.split_on_char ',' alpha) in
+  let count = ref 0 and h = ref 0 in
+  let flush () = (if verbose < 0 then Printf.fprintf out "%d %d\n" (!count / 4096) !h); h := 0 in
+  let rec go prefix n =
+    let blk = !count / 4096 in
+    if verbose < 0 || blk = verbose then begin
+      let line = lex_line prefix np proj in
+      if verbose >= 0 then Printf.fprintf out "%s => %s\n" (hex_of_string prefix) line
+      else h := hash_str !h line
+    end;
+    incr count;
+    if !count mod 4096 = 0 then flush ();
+    if n < maxlen then List.iteri (fun k a -> if not (n = 0 && first >= 0 && k <> first) then go (prefix ^ a) (n + 1)) alpha
+  in
+  go prefix0 0;
+  if !count mod 4096 <> 0 then begin count := (!count / 4096 + 1) * 4096; flush () end
+
 let () =
   let out = stdout in
   (match Array.to_list Sys.argv |> List.tl with
    | ["file-exh"; n] -> file_exh out (int_of_string n)
    | ["file-cases"] -> file_cases out
    | ["errstr-cases"] -> errstr_cases out
+   | ["lex-cases"; m; proj] -> lex_cases out (m = "np") proj
+   | ["lex-exh"; a; n; m; p; f; proj; _] -> lex_exh out a (int_of_string n) (m = "np") (string_of_hex p) (int_of_string f) proj (-1)
+   | ["lex-exh"; a; n; m; p; f; proj; _; v] -> lex_exh out a (int_of_string n) (m = "np") (string_of_hex p) (int_of_string f) proj (int_of_string v)
    | _ -> prerr_endline "usage: driver <cmd>"; exit 2);
   flush out
